@@ -1,4 +1,145 @@
 import LasioModel.Basic
-/- Channel model (to be filled in) -/
+/-
+C10: the decision logic lasio itself contributes to "independent of input channel and encoding; reads are pure":
+ * `reader.open_file`: a `str` with more than one `splitlines()` line is content, otherwise a file name;
+ * `reader.open_with_codecs`: a UTF-8 BOM wins over everything, then the `encoding=` argument, then autodetection;
+ * text-mode files deliver universal newlines (`\r\n`, `\r` -> `\n`), strings / StringIO deliver the text as is;
+ * `LASFile.__init__` takes its default sections from `defaults.get_default_items()`: fresh objects per call, or not.
+Codecs themselves are a runtime service: they appear as parameters with an explicit round-trip hypothesis.
+-/
 namespace Lasio
+
+/-- the characters at which `str.splitlines()` breaks a line -/
+def isLineBreak (c : Char) : Bool :=
+  let n := c.toNat
+  n == 0x0A || n == 0x0B || n == 0x0C || n == 0x0D || n == 0x1C || n == 0x1D || n == 0x1E || n == 0x85 ||
+  n == 0x2028 || n == 0x2029
+
+/-- `str.splitlines()` (keepends = False): `\r\n` is one break; no trailing empty line -/
+def pySplitlinesAux : Str → Str → List Str
+  | [], cur => if cur.isEmpty then [] else [cur.reverse]
+  | '\r' :: '\n' :: t, cur => cur.reverse :: pySplitlinesAux t []
+  | c :: t, cur => if isLineBreak c then cur.reverse :: pySplitlinesAux t [] else pySplitlinesAux t (c :: cur)
+
+def pySplitlines (s : Str) : List Str := pySplitlinesAux s []
+
+inductive RefKind where
+  | content      -- LAS data given as a string -> StringIO
+  | filename     -- a path to open with codecs
+  | indexError   -- `lines[0]` on an empty list (empty string)
+deriving DecidableEq, Repr
+
+/-- the `isinstance(file_ref, str)` branch of `open_file` (URL test not modelled) -/
+def classifyStr (s : Str) : RefKind :=
+  match pySplitlines s with
+  | [] => .indexError
+  | [_] => .filename
+  | _ :: _ :: _ => .content
+
+inductive Enc where
+  | utf8sig
+  | named (e : Str)
+  | detect        -- chardet / ad-hoc trial: not modelled
+deriving DecidableEq, Repr
+
+/-- `open_with_codecs`: which encoding the file is finally opened with -/
+def chooseEncoding (startsWithBom : Bool) (arg : Option Str) : Enc :=
+  if startsWithBom then .utf8sig
+  else match arg with
+    | some e => if e.isEmpty then .detect else .named e
+    | none => .detect
+
+/-- universal-newline translation of text-mode files -/
+def univNL : Str → Str
+  | [] => []
+  | '\r' :: '\n' :: t => '\n' :: univNL t
+  | '\r' :: t => '\n' :: univNL t
+  | c :: t => c :: univNL t
+
+inductive Channel where
+  | pathStr | pathObj | fileObj | stringIO | content
+deriving DecidableEq, Repr
+
+/-- the text the reader iterates over, given what the codec layer decodes (`decoded`) -/
+def deliver (ch : Channel) (t decoded : Str) : Str :=
+  match ch with
+  | .content | .stringIO => t
+  | .pathStr | .pathObj | .fileObj => univNL decoded
+
+/-- split on '\n' only (what `readline`/iteration does after newline translation), terminators dropped -/
+def splitLF : Str → List Str
+  | [] => [[]]
+  | c :: t =>
+    if c == '\n' then [] :: splitLF t
+    else match splitLF t with
+      | [] => [[c]]
+      | l :: ls => (c :: l) :: ls
+
+/-! ### object world (purity) -/
+
+/-- a section object on the heap: just its observable contents -/
+abbrev SecObj := List Str
+
+structure LasObj where
+  secs : List Nat          -- heap ids of the object's sections (Version, Well, Curves, Parameter)
+deriving DecidableEq, Repr
+
+structure World where
+  heap : List SecObj
+  objs : List LasObj
+  cache : Option (List Nat)   -- ids handed out by a non-fresh `get_default_items`
+deriving Repr
+
+def World.init : World := ⟨[], [], none⟩
+
+def defaultContents : List SecObj :=
+  [["VERS".toList, "WRAP".toList, "DLM".toList], ["STRT".toList, "STOP".toList, "STEP".toList, "NULL".toList], [], []]
+
+/-- `LASFile()`: takes its sections from `get_default_items()`; `fresh` says whether that function builds new
+objects on every call (read from the source by the translator) -/
+def World.newLas (fresh : Bool) (w : World) : World :=
+  match fresh, w.cache with
+  | false, some ids => { w with objs := w.objs ++ [⟨ids⟩] }
+  | _, _ =>
+    let n := w.heap.length
+    let ids := (List.range defaultContents.length).map (· + n)
+    { heap := w.heap ++ defaultContents, objs := w.objs ++ [⟨ids⟩],
+      cache := if fresh then w.cache else some ids }
+
+/-- replace the contents of section `k` of object `o` (any in-place mutation of a section) -/
+def World.mutate (w : World) (o k : Nat) (v : SecObj) : World :=
+  match w.objs[o]? with
+  | some ob => match ob.secs[k]? with
+    | some id => { w with heap := w.heap.set id v }
+    | none => w
+  | none => w
+
+/-- `las.read(...)`: every section found in the file is a NEW object; the others keep the object's defaults -/
+def World.read (w : World) (o : Nat) (parsed : List (Nat × SecObj)) : World :=
+  parsed.foldl (fun w (p : Nat × SecObj) =>
+    match w.objs[o]? with
+    | some ob =>
+      if p.1 < ob.secs.length then
+        { w with heap := w.heap ++ [p.2], objs := w.objs.set o ⟨ob.secs.set p.1 w.heap.length⟩ }
+      else w
+    | none => w) w
+
+def World.observe (w : World) (o : Nat) : List SecObj :=
+  match w.objs[o]? with
+  | some ob => ob.secs.map fun id => (w.heap[id]?).getD []
+  | none => []
+
+inductive WOp where
+  | newLas
+  | mutate (o k : Nat) (v : SecObj)
+  | read (o : Nat) (parsed : List (Nat × SecObj))
+deriving Repr
+
+def World.step (fresh : Bool) (w : World) : WOp → World
+  | .newLas => w.newLas fresh
+  | .mutate o k v => w.mutate o k v
+  | .read o parsed => w.read o parsed
+
+def World.run (fresh : Bool) (w : World) (ops : List WOp) : World := ops.foldl (World.step fresh) w
+
 end Lasio
